@@ -454,13 +454,29 @@ class HintSane(object, metaclass=_HintSaneMetaclass):
         self.typearg_to_hint = typearg_to_hint
 
         # Hash identifying this object, precomputed for efficiency.
-        self._hash = hash((
-            hint,
-            hint_recursable_to_depth,
-            is_check_expr_cacheable,
-            is_hint_parent_pep484585_subclass,
-            typearg_to_hint,
-        ))
+        try:
+            self._hash = hash((
+                hint,
+                hint_recursable_to_depth,
+                is_check_expr_cacheable,
+                is_hint_parent_pep484585_subclass,
+                typearg_to_hint,
+            ))
+        # If this hint is unhashable (e.g., "typing.Literal[[1]]", which the
+        # "typing" module permissively accepts), fall back to hashing this hint
+        # by its object identifier. Doing so is safe, as the metaclass
+        # instantiating this metadata intentionally avoids memoizing unhashable
+        # hints. Doing so is also required, as raising a non-human-readable
+        # "TypeError" here would prevent this hint from subsequently being
+        # validated (and thus rejected with a human-readable exception).
+        except TypeError:
+            self._hash = hash((
+                id(hint),
+                hint_recursable_to_depth,
+                is_check_expr_cacheable,
+                is_hint_parent_pep484585_subclass,
+                typearg_to_hint,
+            ))
 
     # ..................{ DUNDERS                            }..................
     def __hash__(self) -> int:
